@@ -481,9 +481,12 @@ end bioarm
 
 /-- THE ASSUMPTION about `Bdd::to_string()` (in addition to `Bio.Lawful`): the dump of a diagram
 lists the two terminals first, children before parents with larger variables (`DumpOK`, the
-hypothesis of the bridge theorem C09), and its last entry denotes the diagram's function -/
+hypothesis of the bridge theorem C09), and its last entry denotes the diagram's function. Only the
+dumps the bridge READS are constrained: diagrams that are neither `is_true` nor `is_false` (this is
+`Bio.DumpSpec.ok`, `dumpLaw_of_spec`). -/
 def DumpLaw {T : Type} {L : Bio.Lib T} {n : Nat} (W : Bio.Lawful L n) (dump : T → List Node) : Prop :=
-  ∀ t, W.Valid t → DumpOK (dump t) ∧ 2 ≤ (dump t).length ∧ Den (dump t) ((dump t).length - 1) (W.den t)
+  ∀ t, W.Valid t → L.isTrue t = false → L.isFalse t = false →
+    DumpOK (dump t) ∧ 2 ≤ (dump t).length ∧ Den (dump t) ((dump t).length - 1) (W.den t)
 
 section hybridarm
 variable {T : Type} {L : Bio.Lib T} {n : Nat} (W : Bio.Lawful L n) {dump : T → List Node}
@@ -505,7 +508,7 @@ theorem bridgeOne_spec (hd : DumpLaw W dump) (s : Store) (w : WF s) (t : T) (ht 
       refine ⟨w, Ext.refl _, by have := w.len; show 0 < s.nodes.size; omega, ?_⟩
       funext σ; show eval s 0 σ = _; rw [eval_zero, this σ]
     · rw [if_neg h0]
-      have ⟨dok, dlen, dden⟩ := hd t ht
+      have ⟨dok, dlen, dden⟩ := hd t ht (by simpa using h1) (by simpa using h0)
       have ⟨a, b, c, d⟩ := bridge_correct (dump t) dok dlen s w
       simp only
       have hj : (replayL ((dump t).drop 2) s [0, 1]).2[(replayL ((dump t).drop 2) s [0, 1]).2.length - 1]? =
@@ -726,8 +729,9 @@ structure WorldOK {T : Type} (W : World T) where
   law : (nv : Nat) → Bio.Lawful (W.lib nv) nv
   an : ∀ ns, (W.anSort ns).Perm ns
 
-/-- the additional assumption the hybrid arm needs -/
-def DumpOKW {T : Type} (W : World T) (ok : WorldOK W) : Prop := ∀ nv, DumpLaw (ok.law nv) W.dump
+/-- the additional assumption the hybrid arm needs (for variable sets whose variable numbers fit the
+own store's variable type, `nv ≤ VBOT`: no ordered dump exists beyond) -/
+def DumpOKW {T : Type} (W : World T) (ok : WorldOK W) : Prop := ∀ nv, nv ≤ VBOT → DumpLaw (ok.law nv) W.dump
 
 theorem spec_len {n : Nat} {tts : List Nat} {D : List BoolFn} (R : SpecSound.Reps n tts D) (hD : D.length = n)
     (sec : Section) : ∀ w ∈ specSection n tts sec, w.length = n := by
@@ -825,7 +829,7 @@ theorem runParsed_faithful {T : Type} (W : World T) (ok : WorldOK W) (fuel : Nat
           (items_order_lt names acs items hi) (items_order_nodup names acs items hi (hone (by simp) hr))
           (by simp)
       · rw [if_neg hr]; trivial
-    have ⟨w1, v1, l1, g, hlfp, hpre⟩ := hybridStep_spec (ok.law names.length) (hdump rfl names.length) _ hv hl
+    have ⟨w1, v1, l1, g, hlfp, hpre⟩ := hybridStep_spec (ok.law names.length) (hdump rfl names.length hn) _ hv hl
     rw [hden] at hlfp hpre
     have hs := CliF.Same.pre hD hdet hlfp
     have hc : GoodCands names.length (condsOn names acs) (Bio.stableModelCandidates (W.lib names.length)
